@@ -317,3 +317,53 @@ def gen_universe(rng, draft="2020", max_docs=3):
     meta = {"dangling": dangling, "d9": d9, "fail": sorted(fail), "nrefs": len(expect_targets), "ndocs": len(docs),
             "base": base}
     return root_body, wire_docs, base, loader, insts, (expect if predictable else None), meta
+
+
+def mixed_cycle(rng):
+    """A reference cycle across 2-3 Loader documents that DECLARE different drafts (or none: inherited). Recursion passes through
+    `properties` / `items`, so it is guarded. Each document marks itself with a const under a property of its own, written in the
+    keyword spelling of its own draft."""
+    from .wire import Obj, Num
+    D7 = "http://json-schema.org/draft-07/schema#"
+    D20 = "https://json-schema.org/draft/2020-12/schema"
+    k = rng.choice([2, 2, 3])
+    uris = ["http://x.test/mix/d%d.json" % i for i in range(k)]
+    drafts = [rng.choice([D7, D20, None]) for _ in range(k)]
+    if len(set(drafts)) == 1:
+        drafts[rng.randrange(k)] = D7 if drafts[0] != D7 else D20
+    docs = []
+    for i in range(k):
+        nxt = uris[(i + 1) % k]
+        via = rng.choice(["properties", "items", "additionalProperties"])
+        body = [("$id", uris[i])] if rng.random() < 0.6 else []
+        if drafts[i]:
+            body = [("$schema", drafts[i])] + body
+        ref = Obj([("$ref", nxt if rng.random() < 0.7 else "d%d.json" % ((i + 1) % k))])
+        if rng.random() < 0.4:
+            ref.set("maxProperties", Num("0"))      # a sibling: ignored in draft-07, asserted in 2020-12
+        props = Obj([("m%d" % i, Obj([("const", "doc%d" % i)]))])
+        if via == "properties":
+            props.set("next", ref)
+            body += [("properties", props)]
+        elif via == "items":
+            body += [("properties", props), ("items", ref)]
+        else:
+            body += [("properties", props), ("additionalProperties", ref)]
+        docs.append([uris[i], Obj(body)])
+    root = Obj(([("$schema", rng.choice([D7, D20]))] if rng.random() < 0.7 else []) + [("$ref", uris[0])])
+    if rng.random() < 0.5:
+        # the root IS the first document of the cycle (served by the Loader under its own URI as well)
+        root = Obj(list(docs[0][1].kvs))
+        if root.get("$id") is None:
+            root.kvs.insert(1 if root.get("$schema") is not None else 0, ("$id", uris[0]))
+    insts = []
+    for i in range(k):
+        for mark in ("doc%d" % i, "doc%d" % ((i + 1) % k), "none"):
+            inner = Obj([("m%d" % i, mark)])
+            insts.append(inner)
+            insts.append(Obj([("next", inner)]))
+            insts.append(Obj([("next", Obj([("next", inner), ("zz", inner)]))]))
+            insts.append([inner, [inner]])
+            insts.append(Obj([("other", inner)]))
+    rng.shuffle(insts)
+    return {"schema": root, "docs": docs, "base": "http://x.test/mix/root.json", "loader": True, "insts": insts[:12]}
